@@ -15,9 +15,9 @@ for V in s u; do
   par clang -c $CF $X $REPO/igris/util/numconvert.c -o $BUILD/numconvert_$V.o
   par clang -c $LIBC $X $REPO/compat/libc/stdlib/strtod.c -o $BUILD/strtod_$V.o
   par clang -c $CF $X $REPO/igris/dprint/dprint_func_impl.c -o $BUILD/dprint_$V.o
-  par clang++ -std=c++17 -c $CF $X $H/c12_float.cpp -o $BUILD/h_$V.o
+  par clang++ -std=c++20 -c $CF $X $H/c12_float.cpp -o $BUILD/h_$V.o
 done
-par clang++ -std=c++17 -O2 -c -I$MC $MC/mc.cpp -o $BUILD/mc.o
+par clang++ -std=c++20 -O2 -c -I$MC $MC/mc.cpp -o $BUILD/mc.o
 parwait
 for V in s u; do objcopy --redefine-sym strtod=igc_strtod --redefine-sym atof=igc_atof $BUILD/strtod_$V.o; done
 par clang++ -fsanitize=address $BUILD/h_s.o $BUILD/numconvert_s.o $BUILD/strtod_s.o $BUILD/dprint_s.o $BUILD/mc.o -o $BUILD/c12
